@@ -361,6 +361,26 @@ func hookKindBlind(c *an.Ctx, rule string) {
 				bad = append(bad, fmt.Sprintf("reflect.Kind(%d) at %s", k, p.Pos(bo.Pos())))
 			}
 		})
+		// … nor by its dynamic Go type: a type switch / assertion of the raw value to a numeric type picks out the
+		// numbers of one decoder (int: YAML, int64: TOML, float64: JSON)
+		an.EachInstr(f, func(in ssa.Instruction) {
+			ta, ok := in.(*ssa.TypeAssert)
+			if !ok {
+				return
+			}
+			fromData := false
+			for _, src := range an.Sources(ta.X) {
+				if src == ssa.Value(f.Params[2]) {
+					fromData = true
+				}
+			}
+			if !fromData {
+				return
+			}
+			if b, ok := ta.AssertedType.Underlying().(*types.Basic); ok && b.Info()&types.IsNumeric != 0 {
+				bad = append(bad, fmt.Sprintf("dynamic type %s at %s", ta.AssertedType.String(), p.Pos(ta.Pos())))
+			}
+		})
 		bad = dedup(bad)
 		c.Check(len(bad) == 0, rule, an.Short(f)+":source-kinds", f.Pos(), "the decode hook asks at most whether its source is a string", "the decode hook "+an.Short(f)+" distinguishes source kinds other than string ("+strings.Join(bad, ", ")+"): integers arrive as int from YAML, int64 from TOML and float64 from JSON, so the same document is converted differently depending on its format")
 	}
